@@ -4,6 +4,7 @@ Exact route.  Transition level: the real object is put into every abstract state
 (steps x patience_count x continual x last) and stepped with every input class (incl. batches whose
 members differ in sign / history); traces with resets; recorded loss streams of the real driver loops -
 in several call forms on one controller object - are replayed through the model loop."""
+import os
 import itertools
 from ..common import *
 
@@ -346,8 +347,27 @@ def run(ctx):
     files.append(('rtbD', hdr + 'Eval vm_compute in rtb_drive_bad %s.\n' % coq_list(dr_cases_rtb)))
     if dr_meta_rtb:
         ctx.samples.append(dr_meta_rtb[0])
+    # ------------------------------------------------------------------ the model regenerated from the source text
+    # (second tie, harness/translate_controller.py): symbolic execution of the step / reset methods as they are written
+    # NOW, and lemmas - compiled here - that the generated functions equal Model/Controller.v for every input
+    gen_notes = None
+    try:
+        from ..translate_controller import translate, Untranslatable
+        gen_text, gen_notes = translate(os.environ.get('VERIF_REPO', '/repo'))
+        files.append(('ControllerGen', gen_text))
+    except Exception as e:   # Untranslatable or a syntax the parser rejects: fail closed
+        ctx.obligation_broken('translation:stepper.py/scheduler.py/mpc.py/icp.py -> Coq', '%s: %s' % (type(e).__name__, e))
     # ------------------------------------------------------------------ run Coq
     res = run_case_files('C20', files, timeout=900)
+    if 'ControllerGen' in res:
+        rc, out = res.pop('ControllerGen')
+        closed = out.count('Closed under the global context')
+        if rc != 0 or closed != 6:
+            ctx.obligation_broken('proof:generated-model = Model/Controller.v (gen_rtb_step_eq, gen_rtb_reset_eq, gen_sop_step_eq, '
+                                  'gen_mpc_budget_eq)', out[-2500:])
+        else:
+            ctx.notes.append('translator tie: gen_rtb_step, gen_rtb_reset, gen_sop_step, gen_mpc_budget regenerated from the working tree '
+                             'and proved equal to Model/Controller.v (6 lemmas, closed under the global context); driver shapes: ' + '; '.join(gen_notes))
     table = dict(rtbT=rt_meta, rtbS=sg_meta, rtbR=rs_meta, sopT=so_meta, rtbTr=tr_meta, sopD=dr_meta_sop, rtbD=dr_meta_rtb)
     for name, (rc, out) in sorted(res.items()):
         ev = parse_evals(out)
